@@ -2,9 +2,9 @@ package gosym
 
 import (
 	"bytes"
-	"go/token"
 	"encoding/json"
 	"fmt"
+	"go/token"
 	"go/types"
 	"reflect"
 	"strings"
@@ -400,24 +400,88 @@ func registerEnvStubs(e *Engine) {
 		t, u := a[0].(structure), a[1].(structure)
 		return binopKind(fr.i.ps, smt.OpBvSub, t[1], u[1], types.Int64)
 	}
-	in["time.Date"] = func(fr *frame, a []value) value {
+	// A time.Time is modelled as (marker, unix nanoseconds, location): marker 1 = calendar time
+	// (concrete instant), 0 = a stubbed clock reading (symbolic instant).
+	locOf := func(v value) *time.Location {
+		if p, ok := v.(*value); ok && p != nil {
+			if n, ok := (*p).(nativeObj); ok {
+				if l, ok := n.v.(*time.Location); ok {
+					return l
+				}
+			}
+		}
+		return time.UTC
+	}
+	locVal := func(l *time.Location) value {
+		var cell value = nativeObj{l}
+		return &cell
+	}
+	mkTime := func(fr *frame, nt time.Time) structure {
 		t := fr.i.zeroOf("time", "Time").(structure)
-		nt := time.Date(int(asInt64(a[0])), time.Month(asInt64(a[1])), int(asInt64(a[2])), int(asInt64(a[3])), int(asInt64(a[4])), int(asInt64(a[5])), int(asInt64(a[6])), time.UTC)
+		t[0] = uint64(1)
 		t[1] = nt.UnixNano()
-		t[0] = uint64(1) // marks "calendar time" (concrete) as opposed to a stubbed clock reading
+		t[2] = locVal(nt.Location())
 		return t
 	}
+	nativeTime := func(t structure) (time.Time, bool) {
+		x, ok := t[1].(int64)
+		if !ok {
+			return time.Time{}, false
+		}
+		return time.Unix(0, x).In(locOf(t[2])), true
+	}
+	in["time.FixedZone"] = func(fr *frame, a []value) value {
+		return locVal(time.FixedZone(mustStr(a[0], "FixedZone name"), int(asInt64(a[1]))))
+	}
+	in["time.Date"] = func(fr *frame, a []value) value {
+		nt := time.Date(int(asInt64(a[0])), time.Month(asInt64(a[1])), int(asInt64(a[2])), int(asInt64(a[3])), int(asInt64(a[4])), int(asInt64(a[5])), int(asInt64(a[6])), locOf(a[7]))
+		return mkTime(fr, nt)
+	}
+	in["time.Parse"] = func(fr *frame, a []value) value {
+		nt, err := time.Parse(mustStr(a[0], "Parse layout"), mustStr(a[1], "Parse value"))
+		if err != nil {
+			return tuple{fr.i.zeroOf("time", "Time"), errIface(fr.i, err.Error())}
+		}
+		return tuple{mkTime(fr, nt), iface{}}
+	}
+	in["(time.Time).UTC"] = func(fr *frame, a []value) value {
+		t := append(structure{}, a[0].(structure)...)
+		t[2] = locVal(time.UTC)
+		return t
+	}
+	in["(time.Time).In"] = func(fr *frame, a []value) value {
+		t := append(structure{}, a[0].(structure)...)
+		t[2] = locVal(locOf(a[1]))
+		return t
+	}
+	in["(time.Time).Equal"] = func(fr *frame, a []value) value {
+		x, y := a[0].(structure)[1], a[1].(structure)[1]
+		if xi, ok := x.(int64); ok {
+			if yi, ok := y.(int64); ok {
+				return xi == yi
+			}
+		}
+		return mkScalar(fr.i.ps, smt.Eq(termOf(x), termOf(y)), types.Bool)
+	}
+	in["(time.Time).Unix"] = func(fr *frame, a []value) value {
+		if nt, ok := nativeTime(a[0].(structure)); ok {
+			return nt.Unix()
+		}
+		panic(unsupported{"time.Unix of a symbolic instant"})
+	}
+	in["(time.Time).UnixNano"] = func(fr *frame, a []value) value { return a[0].(structure)[1] }
 	in["(time.Time).Format"] = func(fr *frame, a []value) value {
 		t := a[0].(structure)
 		layout := mustStr(a[1], "Format layout")
-		switch x := t[1].(type) {
-		case int64:
-			return time.Unix(0, x).UTC().Format(layout)
-		case sym:
-			// a stubbed clock reading: Format is an injective uninterpreted function of it
-			if x.t.Op == smt.OpVar {
+		if nt, ok := nativeTime(t); ok {
+			return nt.Format(layout)
+		}
+		if x, ok := t[1].(sym); ok && x.t.Op == smt.OpVar {
+			// a stubbed clock reading: Format is an injective uninterpreted function of (instant, layout)
+			if layout == time.RFC3339 {
 				return "<<time:" + x.t.Name + ">>"
 			}
+			return "<<time:" + x.t.Name + ":" + layout + ">>"
 		}
 		panic(unsupported{"time.Format of a computed symbolic instant"})
 	}
@@ -654,7 +718,18 @@ func registerEnvStubs(e *Engine) {
 				r.insert("sourceShapeName", iface{t: types.Typ[types.String], v: "stub"})
 				r.insert("focusNode", iface{t: types.Typ[types.String], v: "n1"})
 				r.insert("resultMessage", iface{t: types.Typ[types.String], v: marker})
-				r.insert("trace", iface{t: types.NewSlice(anyType), v: []value{}})
+				// one trace entry quoting a number of the document the way the engine hands numbers
+				// over: a json.Number holding the literal as written (not in canonical form)
+				tv := makeMap(types.Typ[types.String], 0).(*omap)
+				tv.insert("@type", iface{t: types.NewSlice(anyType), v: []value{iface{t: types.Typ[types.String], v: "validation:TraceValue"}}})
+				tv.insert("negated", iface{t: types.Typ[types.Bool], v: false})
+				tv.insert("actual", iface{t: fr.i.eng.namedType("encoding/json", "Number"), v: "12.50"})
+				tr := makeMap(types.Typ[types.String], 0).(*omap)
+				tr.insert("@type", iface{t: types.NewSlice(anyType), v: []value{iface{t: types.Typ[types.String], v: "validation:TraceMessage"}}})
+				tr.insert("component", iface{t: types.Typ[types.String], v: "stub"})
+				tr.insert("resultPath", iface{t: types.Typ[types.String], v: "stub"})
+				tr.insert("traceValue", iface{t: mt, v: tv})
+				r.insert("trace", iface{t: types.NewSlice(anyType), v: []value{iface{t: mt, v: tr}}})
 				m.insert("violation", iface{t: types.NewSlice(anyType), v: []value{iface{t: mt, v: r}}})
 			}
 			rv = iface{t: mt, v: m}
